@@ -76,62 +76,70 @@ Proof.
 Qed.
 
 (** The group standing at key P after all insertions: the last registered one. *)
+Lemma module_chain_by_gen : forall fm comps pre, module_chain fm pre comps = chain_by fm pre comps.
+Proof. intros fm. induction comps as [|c tl IH]; intro pre; cbn; [reflexivity|]. rewrite IH. reflexivity. Qed.
+
+Section Keyed.
+  Variable kf : group_entry -> list str.
+  Definition fmk (groups : list group_entry) : list str -> option group_entry :=
+    find_module_group_by (fun g P => path_eqb (kf g) P) groups.
+
 Definition last_with_key (groups : list group_entry) (init : option group_entry) (P : list str) : option group_entry :=
-  fold_left (fun acc g => if path_eqb P (group_key g) then Some g else acc) groups init.
+  fold_left (fun acc g => if path_eqb P (kf g) then Some g else acc) groups init.
 
 Lemma upd_all_chain_by : forall groups f rp,
-  upd_all groups (chain_by f [] rp) = chain_by (fun P => last_with_key groups (f P) P) [] rp.
+  upd_all kf groups (chain_by f [] rp) = chain_by (fun P => last_with_key groups (f P) P) [] rp.
 Proof.
   induction groups as [|g gs IH]; intros f rp; [reflexivity|].
-  unfold upd_all. cbn [fold_left]. rewrite (upd_chain_by rp [] (group_key g) g f). cbn [app].
-  fold (upd_all gs (chain_by (set_slot (group_key g) g f) [] rp)). rewrite IH.
+  unfold upd_all. cbn [fold_left]. rewrite (upd_chain_by rp [] (kf g) g f). cbn [app].
+  fold (upd_all kf gs (chain_by (set_slot (kf g) g f) [] rp)). rewrite IH.
   apply chain_by_ext. intros suf _. unfold last_with_key. cbn [fold_left]. reflexivity.
 Qed.
 
 Lemma keyed_chain_by : forall groups rp,
-  keyed_chain groups rp = chain_by (last_with_key groups None) [] rp.
+  keyed_chain kf groups rp = chain_by (last_with_key groups None) [] rp.
 Proof.
   intros. unfold keyed_chain. rewrite (nones_chain_by rp []). apply upd_all_chain_by.
 Qed.
 
 (** Facts about [last_with_key] and [find_module_group]. *)
 Lemma last_with_key_some : forall groups init P h,
-  last_with_key groups init P = Some h -> init = Some h \/ (In h groups /\ group_key h = P).
+  last_with_key groups init P = Some h -> init = Some h \/ (In h groups /\ kf h = P).
 Proof.
   induction groups as [|g gs IH]; intros init P h H; [left; exact H|].
   unfold last_with_key in H. cbn [fold_left] in H. apply IH in H. destruct H as [H|[H1 H2]].
-  - destruct (path_eqb P (group_key g)) eqn:E; [|left; exact H].
+  - destruct (path_eqb P (kf g)) eqn:E; [|left; exact H].
     inversion H; subst. right. split; [left; reflexivity|]. apply path_eqb_spec in E. congruence.
   - right. split; [right; exact H1|exact H2].
 Qed.
 
 Lemma last_with_key_in : forall groups init P h,
-  NoDup (map group_key groups) -> In h groups -> group_key h = P -> last_with_key groups init P = Some h.
+  NoDup (map kf groups) -> In h groups -> kf h = P -> last_with_key groups init P = Some h.
 Proof.
   induction groups as [|g gs IH]; intros init P h Hnd Hin Hk; [contradiction|].
   cbn in Hnd. inversion Hnd as [|? ? Hn Hnd']; subst. unfold last_with_key. cbn [fold_left].
   destruct Hin as [Hin|Hin].
   - subst g. rewrite path_eqb_refl.
     (* no later group has this key *)
-    assert (Hkeep : forall l acc, (forall x, In x l -> group_key x <> group_key h) ->
-              fold_left (fun acc g => if path_eqb (group_key h) (group_key g) then Some g else acc) l acc = acc).
+    assert (Hkeep : forall l acc, (forall x, In x l -> kf x <> kf h) ->
+              fold_left (fun acc g => if path_eqb (kf h) (kf g) then Some g else acc) l acc = acc).
     { induction l as [|x tl IHl]; intros acc Hx; [reflexivity|]. cbn [fold_left].
-      destruct (path_eqb (group_key h) (group_key x)) eqn:E.
+      destruct (path_eqb (kf h) (kf x)) eqn:E.
       - apply path_eqb_spec in E. exfalso. apply (Hx x (or_introl eq_refl)). congruence.
       - apply IHl. intros y Hy. apply Hx. right. exact Hy. }
     apply Hkeep. intros x Hx E. apply Hn. rewrite <- E. apply in_map. exact Hx.
-  - apply (IH _ (group_key h) h Hnd' Hin eq_refl).
+  - apply (IH _ (kf h) h Hnd' Hin eq_refl).
 Qed.
 
 Lemma last_with_key_none : forall groups P,
-  (forall h, In h groups -> group_key h <> P) -> last_with_key groups None P = None.
+  (forall h, In h groups -> kf h <> P) -> last_with_key groups None P = None.
 Proof.
   intros groups P H. destruct (last_with_key groups None P) as [h|] eqn:E; [|reflexivity].
   apply last_with_key_some in E. destruct E as [E|[H1 H2]]; [discriminate|]. exfalso. exact (H h H1 H2).
 Qed.
 
 Lemma NoDup_key_inj : forall groups h h',
-  NoDup (map group_key groups) -> In h groups -> In h' groups -> group_key h = group_key h' -> h = h'.
+  NoDup (map kf groups) -> In h groups -> In h' groups -> kf h = kf h' -> h = h'.
 Proof.
   induction groups as [|g gs IH]; intros h h' Hnd H1 H2 Hk; [contradiction|].
   cbn in Hnd. inversion Hnd as [|? ? Hn Hnd']; subst.
@@ -142,23 +150,23 @@ Proof.
   - apply (IH h h' Hnd' H1 H2 Hk).
 Qed.
 
-Lemma find_module_group_spec : forall groups P h,
-  find_module_group groups P = Some h -> In h groups /\ is_module_group h = true /\ group_key h = P.
+Lemma fmk_spec : forall groups P h,
+  fmk groups P = Some h -> In h groups /\ is_module_group h = true /\ kf h = P.
 Proof.
-  intros groups P h H. unfold find_module_group in H. apply find_some in H. destruct H as [H1 H2].
+  intros groups P h H. unfold fmk, find_module_group_by in H. apply find_some in H. destruct H as [H1 H2].
   apply andb_true_iff in H2. destruct H2 as [H2 H3]. apply path_eqb_spec in H3. auto.
 Qed.
 
 Lemma last_eq_find : forall groups P,
-  NoDup (map group_key groups) ->
-  (forall h, In h groups -> group_key h = P -> is_module_group h = true) ->
-  last_with_key groups None P = find_module_group groups P.
+  NoDup (map kf groups) ->
+  (forall h, In h groups -> kf h = P -> is_module_group h = true) ->
+  last_with_key groups None P = fmk groups P.
 Proof.
   intros groups P Hnd Hmod.
-  destruct (find_module_group groups P) as [h|] eqn:Ef.
-  - apply find_module_group_spec in Ef. destruct Ef as [H1 [_ H3]]. apply last_with_key_in; assumption.
+  destruct (fmk groups P) as [h|] eqn:Ef.
+  - apply fmk_spec in Ef. destruct Ef as [H1 [_ H3]]. apply last_with_key_in; assumption.
   - apply last_with_key_none. intros h Hin Hk.
-    unfold find_module_group in Ef. pose proof (find_none _ _ Ef h Hin) as Hn. cbv beta in Hn.
+    unfold fmk, find_module_group_by in Ef. pose proof (find_none _ _ Ef h Hin) as Hn. cbv beta in Hn.
     rewrite (Hmod h Hin Hk) in Hn. cbn in Hn. rewrite Hk, path_eqb_refl in Hn. discriminate.
 Qed.
 
@@ -166,13 +174,14 @@ Qed.
 Definition is_prefix (p l : list str) : Prop := exists suf, l = p ++ suf.
 
 Definition no_name_clash (benches : list bench_entry) (groups : list group_entry) : Prop :=
-  NoDup (map group_key groups) /\
+  NoDup (map kf groups) /\
   (forall h, In h groups -> is_module_group h = false ->
-     (forall e, In e (all_entries benches groups) -> is_prefix (group_key h) (entry_path e) -> exists ge, e = AGeneric h ge) /\
-     (forall g', In g' groups -> is_prefix (group_key h) (group_key g') -> g' = h)).
+     kf h = group_key h /\      (* a generic function's entry stands at its own name, spelled as written *)
+     (forall e, In e (all_entries benches groups) -> is_prefix (kf h) (entry_path e) -> exists ge, e = AGeneric h ge) /\
+     (forall g', In g' groups -> is_prefix (kf h) (kf g') -> g' = h)).
 
 Lemma module_chain_chain_by : forall groups comps pre,
-  module_chain groups pre comps = chain_by (find_module_group groups) pre comps.
+  module_chain (fmk groups) pre comps = chain_by (fmk groups) pre comps.
 Proof. intros groups. induction comps as [|c tl IH]; intro pre; cbn; [reflexivity|]. rewrite IH. reflexivity. Qed.
 
 Lemma chain_by_app : forall f a b pre, chain_by f pre (a ++ b) = chain_by f pre a ++ chain_by f (pre ++ a) b.
@@ -212,14 +221,14 @@ Qed.
 (** Under the guard the keyed chain of every registered entry is its intended chain. *)
 Lemma keyed_chain_entry : forall benches groups e,
   no_name_clash benches groups -> In e (all_entries benches groups) ->
-  keyed_chain groups (entry_path e) = entry_chain groups e.
+  keyed_chain kf groups (entry_path e) = entry_chain (fmk groups) e.
 Proof.
   intros benches groups e [Hnd Hg] He. rewrite keyed_chain_by.
   set (L := last_with_key groups None).
   (* at every position whose groups are all module groups, L is find_module_group *)
   assert (Hmodpos : forall P, is_prefix P (entry_path e) ->
-            (forall h, In h groups -> group_key h = P -> is_module_group h = false -> exists ge, e = AGeneric h ge) /\ True).
-  { intros P HP. split; [|exact I]. intros h Hh Hk Hm. destruct (Hg h Hh Hm) as [H1 _]. apply (H1 e He). rewrite Hk. exact HP. }
+            (forall h, In h groups -> kf h = P -> is_module_group h = false -> exists ge, e = AGeneric h ge) /\ True).
+  { intros P HP. split; [|exact I]. intros h Hh Hk Hm. destruct (Hg h Hh Hm) as [_ [H1 _]]. apply (H1 e He). rewrite Hk. exact HP. }
   destruct e as [b|g ge].
   - (* plain benchmark: every prefix is a module position *)
     cbn [entry_path entry_chain]. rewrite module_chain_chain_by. apply chain_by_ext_prefix. intros k Hk. cbn [app].
@@ -232,14 +241,14 @@ Proof.
     pose proof (in_generic_benches _ _ _ _ He) as Hgin.
     pose proof (is_module_false_of_entry _ _ _ _ He) as Hgm.
     cbn [entry_path entry_chain]. set (mc := module_components (g_meta g)). set (raw := m_raw (g_meta g)).
-    assert (Hkey : group_key g = mc ++ [raw]) by reflexivity.
+    assert (Hkey : kf g = mc ++ [raw]) by (destruct (Hg g Hgin Hgm) as [Hk _]; exact Hk).
     rewrite chain_by_app. cbn [app chain_by]. f_equal; [|f_equal].
     + (* module positions *)
       rewrite module_chain_chain_by. apply chain_by_ext_prefix. intros k Hk. cbn [app].
       apply last_eq_find; [exact Hnd|]. intros h Hh Hkh.
       destruct (is_module_group h) eqn:Em; [reflexivity|]. exfalso.
-      destruct (Hg h Hh Em) as [_ H2].
-      assert (Hp : is_prefix (group_key h) (group_key g)).
+      destruct (Hg h Hh Em) as [_ [_ H2]].
+      assert (Hp : is_prefix (kf h) (kf g)).
       { rewrite Hkh, Hkey. exists (skipn k mc ++ [raw]). rewrite app_assoc, firstn_skipn. reflexivity. }
       pose proof (H2 g Hgin Hp) as Heq. subst h.
       (* then key g = firstn k mc, shorter than mc ++ [raw] *)
@@ -249,8 +258,8 @@ Proof.
     + (* the type component carries no group *)
       destruct (ge_kind ge) as [t|[t|] c0]; cbn [chain_by]; try reflexivity.
       f_equal. f_equal. unfold L. apply last_with_key_none. intros h Hh Hkh.
-      destruct (Hg g Hgin Hgm) as [_ H2].
-      assert (Hp : is_prefix (group_key g) (group_key h)).
+      destruct (Hg g Hgin Hgm) as [_ [_ H2]].
+      assert (Hp : is_prefix (kf g) (kf h)).
       { rewrite Hkh, Hkey. cbn [app]. exists [type_display t]. rewrite <- app_assoc. reflexivity. }
       pose proof (H2 h Hh Hp) as Heq. subst h. rewrite Hkey in Hkh. cbn [app] in Hkh.
       apply (f_equal (@length str)) in Hkh. rewrite !app_length in Hkh. cbn in Hkh. lia.
@@ -259,32 +268,70 @@ Qed.
 (** Hence, under the guard, what runs is the flat semantics. *)
 Lemma keyed_case_flat : forall c benches groups e,
   no_name_clash benches groups -> In e (all_entries benches groups) ->
-  filter (fun x => c_filter c (xpath x)) (keyed_case c groups e) = flat_case c groups e.
+  filter (fun x => c_filter c (xpath x)) (keyed_case c kf groups e) = flat_case c (fmk groups) e.
 Proof.
   intros c benches groups e Hg He. unfold keyed_case, case_of, flat_case, rekey, rleaf_of. cbn [fst snd].
   rewrite (keyed_chain_entry benches groups e Hg He).
-  fold (chain_path (entry_chain groups e)). fold (chain_options (entry_chain groups e)).
+  fold (chain_path (entry_chain (fmk groups) e)). fold (chain_options (entry_chain (fmk groups) e)).
   destruct (leaf_ignored c _); [reflexivity|].
   unfold leaf_args. destruct (entry_runner e) as [|o vals]; [|reflexivity].
   cbn [filter xpath fst snd]. destruct (c_filter c _); reflexivity.
 Qed.
 
+End Keyed.
+
+(** The lookups of the flat semantics proper (group keys compared with the last
+    component modulo "r#") and of the attachment keys agree on the module paths
+    of the registry. *)
+Definition lookups_agree (benches : list bench_entry) (groups : list group_entry) : Prop :=
+  forall e P suf, In e (all_entries benches groups) -> P <> [] ->
+    module_components (entry_meta e) = P ++ suf ->
+    find_module_group groups P = fmk (attach_key benches groups) groups P.
+
+Lemma module_chain_ext : forall fm fm' comps pre,
+  (forall k, (0 < k <= length comps)%nat -> fm (pre ++ firstn k comps) = fm' (pre ++ firstn k comps)) ->
+  module_chain fm pre comps = module_chain fm' pre comps.
+Proof. intros fm fm' comps pre H. rewrite !module_chain_by_gen. apply chain_by_ext_prefix. exact H. Qed.
+
+Lemma entry_chain_agree : forall benches groups e,
+  lookups_agree benches groups -> In e (all_entries benches groups) ->
+  entry_chain (find_module_group groups) e = entry_chain (fmk (attach_key benches groups) groups) e.
+Proof.
+  intros benches groups e H He.
+  assert (Hm : module_chain (find_module_group groups) [] (module_components (entry_meta e))
+               = module_chain (fmk (attach_key benches groups) groups) [] (module_components (entry_meta e))).
+  { apply module_chain_ext. intros k Hk. cbn [app].
+    apply (H e (firstn k (module_components (entry_meta e))) (skipn k (module_components (entry_meta e))) He).
+    - intro E. apply (f_equal (@length str)) in E. rewrite firstn_length in E. cbn in E. lia.
+    - symmetry. apply firstn_skipn. }
+  destruct e as [b|g ge]; cbn [entry_chain entry_meta] in *; rewrite Hm; reflexivity.
+Qed.
+
 Lemma exec_flat : forall c benches groups,
-  no_name_clash benches groups ->
+  no_name_clash (attach_key benches groups) benches groups -> lookups_agree benches groups ->
   Permutation (exec_forest c [] None (retain (c_filter c) (build_tree benches groups)))
               (flat_exec c benches groups).
 Proof.
-  intros c benches groups Hg. eapply Permutation_trans; [apply exec_keyed_filtered|].
+  intros c benches groups Hg Hl. eapply Permutation_trans; [apply exec_keyed_filtered|].
   rewrite filter_flat_map. unfold flat_exec.
-  rewrite (flat_map_ext_in _ _ _ _ (all_entries benches groups) (fun e He => keyed_case_flat c benches groups e Hg He)).
-  apply Permutation_refl.
+  assert (E : forall e, In e (all_entries benches groups) ->
+              filter (fun x => c_filter c (xpath x)) (keyed_case c (attach_key benches groups) groups e)
+              = flat_case c (find_module_group groups) e).
+  { intros e He. rewrite (keyed_case_flat (attach_key benches groups) c benches groups e Hg He).
+    unfold flat_case. rewrite (entry_chain_agree benches groups e Hl He). reflexivity. }
+  rewrite (flat_map_ext_in _ _ _ _ (all_entries benches groups) E). apply Permutation_refl.
 Qed.
 
-(** The guard is satisfiable by a registry with a module group and a generic function. *)
+(** The guard is satisfiable by a registry with a module group; a generic function of the module's name breaks it. *)
 Example no_name_clash_example :
-  no_name_clash [w_bench_a] [w_mod_group] /\ ~ no_name_clash [w_bench_a] [w_mod_group; w_fn_group].
+  no_name_clash (attach_key [w_bench_a] [w_mod_group]) [w_bench_a] [w_mod_group] /\
+  lookups_agree [w_bench_a] [w_mod_group] /\
+  ~ no_name_clash (attach_key [w_bench_a] [w_mod_group; w_fn_group]) [w_bench_a] [w_mod_group; w_fn_group].
 Proof.
-  split.
+  split; [|split].
   - split; [cbn; constructor; [intros []|constructor]|]. intros h [Hh|[]] Hm. subst h. discriminate.
-  - intros [Hnd _]. cbn in Hnd. inversion Hnd as [|? ? Hn _]. apply Hn. left. reflexivity.
+  - intros e P suf [He|[]] HP Hsuf. subst e. cbn [entry_meta] in Hsuf.
+    change (module_components (b_meta w_bench_a)) with [w_c; w_f] in Hsuf.
+    destruct P as [|p1 [|p2 [|p3 P]]]; [congruence| | |]; cbn in Hsuf; inversion Hsuf; subst; vm_compute; reflexivity.
+  - intros [Hnd _]. vm_compute in Hnd. inversion Hnd as [|? ? Hn _]. apply Hn. left. reflexivity.
 Qed.
